@@ -35,7 +35,7 @@ Print Assumptions C02_constants_invariant.
    x = 3; k = x + 1; while true: x = x + k   gives E(x) = 15 instead of 11 at n = 2. *)
 Theorem C02_constants_old_behaviour_refuted :
   exists (fp : flatprog) (n : nat) (s0 : state) (f : state -> Qc),
-    ignores (sdom (fst (scan false (body_vars fp) [] (fp_init fp)))) f /\
+    ignores (sdom (fixed_gen ROld fp)) f /\
     E (frun no_law (constants_old fp) n s0) f <> E (frun no_law fp n s0) f.
 Proof. exact constants_old_refuted. Qed.
 Print Assumptions C02_constants_old_behaviour_refuted.
@@ -105,4 +105,32 @@ Example constants_demo_nontrivial :
 Proof. vm_compute. intros H. discriminate H. Qed.
 (* the repaired rule leaves the old counterexample alone *)
 Example constants_refute_prog_ok : constants_ok refute_prog = true /\ folded refute_prog = [].
+Proof. vm_compute. split; reflexivity. Qed.
+
+(* ---- the rule of proposed_fixes/constants_init_reassign.diff (model: constants_fix) ----
+   same theorems for the patched rule; on the two witnesses the hypothesis then HOLDS and the
+   values are the exact ones *)
+Theorem C02_constants_fix_preserves :
+  forall (law : string -> list Qc -> dist Qc) (fp : flatprog),
+    constants_ok_gen RFix fp = true ->
+    forall (n : nat) (s0 : state) (f : state -> Qc),
+      ignores (sdom (fixed_gen RFix fp)) f ->
+      E (frun law (constants_fix fp) n s0) f = E (frun law fp n s0) f.
+Proof. exact constants_fix_preserves. Qed.
+Print Assumptions C02_constants_fix_preserves.
+
+Example constants_fix_ok_wit : constants_ok_gen RFix wit_a = true /\ constants_ok_gen RFix wit_b = true.
+Proof. vm_compute. split; reflexivity. Qed.
+Example constants_fix_wit_a_values :
+  map (fun n => (zp (E (frun no_law (constants_fix wit_a) n st0) (fun s => s "y")),
+                 zp (E (frun no_law wit_a n st0) (fun s => s "y")))) [0; 1; 2]%nat
+  = [((1, 1), (1, 1)); ((3, 1), (3, 1)); ((5, 1), (5, 1))]%Z.
+Proof. vm_compute. reflexivity. Qed.
+Example constants_fix_wit_b_values :
+  map (fun n => (zp (E (frun no_law (constants_fix wit_b) n st0) (fun s => s "x")),
+                 zp (E (frun no_law wit_b n st0) (fun s => s "x")))) [0; 1; 2]%nat
+  = [((0, 1), (0, 1)); ((1, 2), (1, 2)); ((1, 1), (1, 1))]%Z.
+Proof. vm_compute. reflexivity. Qed.
+(* on a program whose initial block assigns every variable once the two rules coincide *)
+Example constants_fix_same_on_demo : constants_fix demo = constants demo /\ constants_ok_gen RFix demo = true.
 Proof. vm_compute. split; reflexivity. Qed.
